@@ -374,3 +374,39 @@ def canon(n):
 
 def npretty(n):
     return pretty(canon(n))
+
+
+# ---------------------------------------------------------------------------------------------
+# `if let P = e { A } else { B }` read as `match e { P => A, _ => B }` (for rules that are stated on match arms)
+
+_MATCHIFIED = {}
+
+
+def matchified(fn):
+    """copy of a function record in which every `if let PAT = e {A} [else {B}]` (not part of a let-chain) is a two-armed match"""
+    import copy
+    key = id(fn)
+    if key in _MATCHIFIED and _MATCHIFIED[key][0] is fn:
+        return _MATCHIFIED[key][1]
+    f2 = copy.deepcopy(fn)
+
+    def rec(n):
+        if isinstance(n, list):
+            return [rec(x) for x in n]
+        if not isinstance(n, dict):
+            return n
+        for k_, v in list(n.items()):
+            if isinstance(v, (dict, list)):
+                n[k_] = rec(v)
+        if n.get("k") == "if":
+            c = n["c"]
+            while c is not None and c.get("k") == "blk" and not c["b"]["stmts"] and c["b"]["tail"] is not None:
+                c = c["b"]["tail"]
+            if c is not None and c.get("k") == "letx":
+                el = n["el"] if n["el"] is not None else {"k": "tup", "xs": [], "line": n.get("line")}
+                return {"k": "match", "scrut": c["init"], "src": "Normal", "line": n.get("line"), "t": n.get("t"), "from_if_let": True,
+                        "arms": [{"pat": c["pat"], "guard": None, "body": n["th"]}, {"pat": {"k": "wild"}, "guard": None, "body": el}]}
+        return n
+    f2["body"] = rec(f2["body"])
+    _MATCHIFIED[key] = (fn, f2)
+    return f2
